@@ -8,7 +8,7 @@ from props import _design as D
 from props._design import describe, nontrivial, unsupported, prepare, impl_obs, CASE_TIMEOUT  # noqa: F401
 
 ID = "C03"
-PROP_FILES = ["Properties/C03.v"]
+PROP_FILES = ["Properties/C03.v", "Properties/C03_rank.v"]
 THEOREMS = ["C03_pick_contrasts_partition", "C03_covered_exactly_once", "C03_absorb_never_fails",
             "C03_simplify_preserves", "C03_example_two_factor", "C03_refuted_single_coding"]
 ASSUMPTIONS = ["complete-factorial replicated data; numeric columns are random integers (general position)",
@@ -178,15 +178,29 @@ def _classify(formula):
     return sets, cats, nums
 
 
+def _generic(df, c):
+    """the same frame with the numeric columns replaced by pseudo-random reals: 'numeric columns in
+    general position' holds with probability one (small integers collide within cells)"""
+    import zlib
+    import numpy as np
+    rng = np.random.default_rng(zlib.crc32(c["formula"].encode()) + len(df))
+    out = df.copy()
+    for col in ("x", "z", "w"):
+        if col in out.columns:
+            out[col] = rng.normal(size=len(out)) * 3 + rng.uniform(-5, 5)
+    return out
+
+
 def oracle(c):
     import numpy as np
+    from formulae import design_matrices
+    df = _generic(dm.to_pandas(c["frame"]), c)
     try:
-        d = dm.build(c)
+        d = design_matrices(c["formula"], df)
     except Exception as e:
         return f"{c['formula']!r} is rejected: {type(e).__name__}: {str(e)[:60]}"
     if d.common is None:
         return None
-    df = dm.to_pandas(c["frame"])
     X = np.asarray(d.common.design_matrix, dtype=float)
     # the formula's own terms (extra helper terms added by formulae are not part of the model space)
     own = [":".join(t) for t in []]
